@@ -1,6 +1,77 @@
-(* C01 — a compiled field returns exactly what composing the user functions returns. *)
-From Connectome Require Import Values VM.
+(* C01 — a compiled field returns exactly what composing the user functions returns.
+   Property theorems only; proofs live in Proofs/{Sim,L2,Counts,C01Main,C01Inst}.v. *)
+From Connectome Require Import Values Attrs VM Edges Evaluator L2 C01Main C01Inst EdgeFacts.
+Local Open Scope list_scope.
 
-Theorem C01_placeholder : True.
-Proof. exact I. Qed.
-Print Assumptions C01_placeholder.
+(* The generic statement: ANY graph shape whose parents precede their children, ARBITRARY generator trees for
+   the two generators of every node (so every present and future edge kind), any interpretation of the user
+   functions, any shared store with an invariant kept by Good writes, arbitrary invariant-preserving
+   interference.  If composing the generators recursively (every cache lookup a miss) gives v, then
+   Graph.__call__ returns v after finitely many machine steps, whatever the eviction counters do, and the
+   store invariant still holds. *)
+Theorem C01_refines_generic :
+  forall (g : pgraph) (gens : which -> nat -> option gen)
+    (apply : string -> list val -> list (string * val) -> val)
+    (raises : string -> list val -> list (string * val) -> bool)
+    (ins : list (nat * val)) (cstore : Type)
+    (cget : cstore -> nat -> sval -> option sval * cstore) (cset : cstore -> nat -> sval -> sval -> cstore)
+    (Good : nat -> sval -> sval -> Prop) (CInv : cstore -> Prop),
+  (forall st c k r st', CInv st -> cget st c k = (r, st') -> CInv st' /\ (forall v, r = Some v -> Good c k v)) ->
+  (forall st c k v, CInv st -> Good c k v -> CInv (cset st c k v)) ->
+  forall interfere : cstore -> cstore, (forall st, CInv st -> CInv (interfere st)) ->
+  forall o : nat, (forall n p, In p (parents g n) -> p < n) -> o < S (List.length g) ->
+  (forall f w n e, gens w n = Some e -> GOK g gens apply raises ins Good f w n e) ->
+  forall (f : nat) (v : sval) (σ : cstore),
+  spnode gens ins (spq g gens apply raises ins f) WC o = Some v -> CInv σ ->
+  exists k s', (forall k', k <= k' ->
+      run g gens apply raises cstore cget cset interfere k' (init_state g cstore ins o CEvaluate σ)
+      = Finished cstore v s') /\ CInv (sto cstore s').
+Proof. exact call_refines. Qed.
+Print Assumptions C01_refines_generic.
+
+(* Concrete graphs over the regenerated edge generators of /repo (functions with keyword split and Silent
+   positions, constants, identities, products, barriers, hash-by-value and impure wrappers, switches,
+   CheckIds), no cache edges: no hypothesis on the generators is left. *)
+Theorem C01_refines :
+  forall (g : graph) apply raises ins (cstore : Type) cget cset interfere o fuel v (σ : cstore),
+  wf g -> no_cache g -> o <= List.length g ->
+  spec g apply raises ins WC fuel o = Some v ->
+  exists k s', forall k', k <= k' ->
+    call (shape g) (gens_of g) apply raises cstore cget cset interfere ins o σ k' = Finished cstore v s'.
+Proof. exact refines_cachefree. Qed.
+Print Assumptions C01_refines.
+
+(* no internal assertion, eviction or stack-discipline error ever surfaces *)
+Theorem C01_never_stuck :
+  forall (g : graph) apply raises ins (cstore : Type) cget cset interfere o fuel v (σ : cstore),
+  wf g -> no_cache g -> o <= List.length g ->
+  spec g apply raises ins WC fuel o = Some v ->
+  forall k why s, call (shape g) (gens_of g) apply raises cstore cget cset interfere ins o σ k <> Stuck cstore why s.
+Proof. exact never_stuck_cachefree. Qed.
+Print Assumptions C01_never_stuck.
+
+(* Non-vacuity: a diamond with a repeated parent, keyword binding, a switch, a by-value node and a barrier
+   meets every hypothesis, and its specification value is the expected composition. *)
+Definition ex_g : graph :=
+  [Leaf;
+   Inner (EFunc "f" 1 [] []) [0];
+   Inner (EFunc "g" 2 [] []) [1; 1];
+   Inner (EFunc "h" 3 ["y"] []) [2; 1; 0];
+   Inner (ESwitch [(VStr "k1", 0); (VStr "k2", 1)] 2) [0; 2; 3];
+   Inner (EByValue (EFunc "bv" 1 [] [])) [4];
+   Inner EBarrier [5];
+   Inner (EProduct 2) [6; 3]].
+Definition ex_ins : list (nat * val) := [(0, VStr "k2")].
+Definition ex_apply (f : string) (pos : list val) (kw : list (string * val)) : val := VApp f pos kw.
+
+Example C01_example_hypotheses :
+  wf ex_g /\ no_cache ex_g /\ 7 <= List.length ex_g /\
+  spec ex_g ex_apply (fun _ _ _ => false) ex_ins WC 20 7 =
+    Some (SVal (VTuple [VApp "bv" [VApp "h" [VApp "g" [VApp "f" [VStr "k2"] []; VApp "f" [VStr "k2"] []] []; VApp "f" [VStr "k2"] []] [("y", VStr "k2")]] [];
+                        VApp "h" [VApp "g" [VApp "f" [VStr "k2"] []; VApp "f" [VStr "k2"] []] []; VApp "f" [VStr "k2"] []] [("y", VStr "k2")]])).
+Proof.
+  split; [apply wfb_sound; vm_compute; reflexivity|].
+  split; [apply no_cacheb_sound; vm_compute; reflexivity|].
+  split; [vm_compute; lia|]. vm_compute. reflexivity.
+Qed.
+Print Assumptions C01_example_hypotheses.
